@@ -18,6 +18,7 @@ import (
 
 	"github.com/projecteru2/core/resource/cobalt"
 	"github.com/projecteru2/core/resource/plugins"
+	plugintypes "github.com/projecteru2/core/resource/plugins/types"
 	resourcetypes "github.com/projecteru2/core/resource/types"
 	coretypes "github.com/projecteru2/core/types"
 	"verif/harness/vt"
@@ -228,8 +229,14 @@ func (e *mgrEnv) history(in *histIn) []map[string]any {
 				break
 			}
 			ev["w"] = w.id
-			_, _, err := m.SetNodeResourceUsage(ctx, node, nil, nil, []resourcetypes.Resources{w.res}, true, plugins.Decr)
+			// the release is made through the plugin itself (what the manager's commit step does for each plugin), so that
+			// what the plugin REPORTS as the usage before and after the call is seen: the manager's rollback relies on it
+			resp, err := p.SetNodeResourceUsage(ctx, node, nil, nil, []plugintypes.WorkloadResource{plugintypes.WorkloadResource(w.res["cpumem"])}, true, plugins.Decr)
 			ev["class"] = classOf(err)
+			if err == nil && resp != nil {
+				ev["retBefore"] = projectUsage(resp.Before, ncore, nnuma)
+				ev["retAfter"] = projectUsage(resp.After, ncore, nnuma)
+			}
 			if err == nil {
 				keep := live[:0]
 				for _, l := range live {
